@@ -1,6 +1,7 @@
 (* C01 — a compiled field returns exactly what composing the user functions returns.
    Property theorems only; proofs live in Proofs/{Sim,L2,Counts,C01Main,C01Inst}.v. *)
 From Connectome Require Import Values Attrs VM Edges Evaluator L2 HashSound SpecEq C01Main C01Inst C01Readable EdgeFacts RaiseDir C01Raise Examples.
+From Connectome Require EvictGen GraphGen.
 Local Open Scope list_scope.
 
 (* The generic statement: ANY graph shape whose parents precede their children, ARBITRARY generator trees for
@@ -92,3 +93,11 @@ Proof.
   split; [vm_compute; lia|]. vm_compute. reflexivity.
 Qed.
 Print Assumptions C01_example_hypotheses.
+
+(* The per-call tables of the machine model (Model/VM.v: evict, the counted-key assertion, two fresh tables per call over
+   counts doubled by Graph.__init__) are the ones engine/utils.py and engine/graph.py define (regenerated facts). *)
+Theorem C01_eviction_tables_are_translated :
+  EvictGen.evict_rule = "pop-at-one-else-decrement" /\ EvictGen.setitem_asserts_counted = true
+  /\ GraphGen.graph_multiplier = 2 /\ GraphGen.fresh_counts_per_call = true /\ GraphGen.count_rule = "path-count-dp".
+Proof. repeat split; reflexivity. Qed.
+Print Assumptions C01_eviction_tables_are_translated.
